@@ -30,10 +30,12 @@ starting value of the reader's port:
 -/
 namespace HgVerif.FeedbackShape
 
-/-! ## the delay -/
+variable {δ : Type}
+
+/-! ## the delay (any payload type `δ`: the pair never looks into the delta it carries) -/
 
 /-- what the source delivers in the first cycle of `cs` when it starts in state `s` -/
-def headDelivery (s : FB) : List (Nat × Option Delta) → List (Nat × Delta)
+def headDelivery (s : FB δ) : List (Nat × Option δ) → List (Nat × δ)
   | [] => []
   | (t, _) :: _ =>
     if s.sched = t then
@@ -45,7 +47,7 @@ def headDelivery (s : FB) : List (Nat × Option Delta) → List (Nat × Delta)
 theorem scheduleNode_stale {t s : Nat} (h : s ≤ t) : scheduleNode t (t + 1) s = t + 1 := by
   simp [scheduleNode, h]
 
-theorem run_cons (s : FB) (t : Nat) (w : Option Delta) (rest : List (Nat × Option Delta)) :
+theorem run_cons (s : FB δ) (t : Nat) (w : Option δ) (rest : List (Nat × Option δ)) :
     run s ((t, w) :: rest) = headDelivery s ((t, w) :: rest) ++ run (cycle t w s).1 rest := by
   simp only [run, cycle, sourceStep, headDelivery]
   by_cases h : s.sched = t
@@ -53,22 +55,22 @@ theorem run_cons (s : FB) (t : Nat) (w : Option Delta) (rest : List (Nat × Opti
     cases s.state <;> simp
   · simp [h]
 
-theorem cycle_sched_some (s : FB) (t : Nat) (d : Delta) (h : s.sched ≤ t) :
+theorem cycle_sched_some (s : FB δ) (t : Nat) (d : δ) (h : s.sched ≤ t) :
     (cycle t (some d) s).1 = { state := some d, sched := t + 1 } := by
   simp only [cycle, sourceStep, sinkStep]
   by_cases h' : s.sched = t
   · simp [h', scheduleNode]
   · simp [h', scheduleNode_stale h]
 
-theorem cycle_sched_none (s : FB) (t : Nat) (h : s.sched ≤ t) : (cycle t none s).1.sched ≤ t := by
+theorem cycle_sched_none (s : FB δ) (t : Nat) (h : s.sched ≤ t) : (cycle t none s).1.sched ≤ t := by
   simp only [cycle, sourceStep, sinkStep]
   by_cases h' : s.sched = t
   · simp [h']
   · simp [h', h]
 
 /-- general form: from any state whose schedule slot is not in the future of the first cycle -/
-theorem run_general (cs : List (Nat × Option Delta)) :
-    ∀ s : FB, WF cs → (∀ t w rest, cs = (t, w) :: rest → s.sched ≤ t) →
+theorem run_general (cs : List (Nat × Option δ)) :
+    ∀ s : FB δ, WF cs → (∀ t w rest, cs = (t, w) :: rest → s.sched ≤ t) →
       run s cs = headDelivery s cs ++ shifted cs := by
   induction cs with
   | nil => intro s _ _; simp [run, headDelivery, shifted]
@@ -96,7 +98,7 @@ theorem run_general (cs : List (Nat × Option Delta)) :
         simp [headDelivery, shifted]
 
 /-- **exactly one smallest step later, in order, nothing lost, duplicated or invented** -/
-theorem shape_feedback_delay (cs : List (Nat × Option Delta)) (hwf : WF cs) : run {} cs = shifted cs := by
+theorem shape_feedback_delay (cs : List (Nat × Option δ)) (hwf : WF cs) : run {} cs = shifted cs := by
   rw [run_general cs {} hwf (by intro t w rest _; simp)]
   cases cs with
   | nil => rfl
@@ -110,7 +112,7 @@ theorem shape_feedback_delay (cs : List (Nat × Option Delta)) (hwf : WF cs) : r
     simp [headDelivery, hne]
 
 /-- a declared initial delta is delivered in the start cycle, then the written deltas follow as usual -/
-theorem shape_initial_value (start : Nat) (d0 : Delta) (w : Option Delta) (rest : List (Nat × Option Delta))
+theorem shape_initial_value (start : Nat) (d0 : δ) (w : Option δ) (rest : List (Nat × Option δ))
     (hwf : WF ((start, w) :: rest)) :
     run (initFB start d0) ((start, w) :: rest) = (start, d0) :: shifted ((start, w) :: rest) := by
   rw [run_general _ (initFB start d0) hwf (by intro t w' r h; injection h with h1 _; injection h1 with h1 _; simp [initFB, h1])]
@@ -118,13 +120,13 @@ theorem shape_initial_value (start : Nat) (d0 : Delta) (w : Option Delta) (rest 
 
 /-! ## membership in the specification stream -/
 
-theorem wf_tail {c : Nat × Option Delta} {rest : List (Nat × Option Delta)} (h : WF (c :: rest)) : WF rest := by
+theorem wf_tail {c : Nat × Option δ} {rest : List (Nat × Option δ)} (h : WF (c :: rest)) : WF rest := by
   obtain ⟨t, w⟩ := c
   cases rest with
   | nil => trivial
   | cons c' r => exact h.2.2.2
 
-theorem wf_head_lt {t : Nat} {w : Option Delta} {rest : List (Nat × Option Delta)} (h : WF ((t, w) :: rest)) :
+theorem wf_head_lt {t : Nat} {w : Option δ} {rest : List (Nat × Option δ)} (h : WF ((t, w) :: rest)) :
     ∀ c ∈ rest, t < c.1 := by
   induction rest generalizing t w with
   | nil => intro c hc; cases hc
@@ -136,7 +138,7 @@ theorem wf_head_lt {t : Nat} {w : Option Delta} {rest : List (Nat × Option Delt
     · subst h1; exact hlt
     · exact Nat.lt_trans hlt (ih hwf' c h1)
 
-theorem mem_shifted {cs : List (Nat × Option Delta)} {τ : Nat} {d : Delta} (h : (τ, d) ∈ shifted cs) :
+theorem mem_shifted {cs : List (Nat × Option δ)} {τ : Nat} {d : δ} (h : (τ, d) ∈ shifted cs) :
     ∃ t, τ = t + 1 ∧ (t, some d) ∈ cs := by
   induction cs with
   | nil => simp [shifted] at h
@@ -158,7 +160,7 @@ theorem mem_shifted {cs : List (Nat × Option Delta)} {τ : Nat} {d : Delta} (h 
           exact ⟨t0, h1, List.mem_cons_of_mem _ h2⟩
 
 /-- a delta is in the specification stream at `t + 1` iff it was written at `t` and the run has a cycle `t + 1` -/
-theorem mem_shifted_iff {cs : List (Nat × Option Delta)} (hwf : WF cs) {t : Nat} {d : Delta} :
+theorem mem_shifted_iff {cs : List (Nat × Option δ)} (hwf : WF cs) {t : Nat} {d : δ} :
     (t + 1, d) ∈ shifted cs ↔ (t, some d) ∈ cs ∧ ∃ w', (t + 1, w') ∈ cs := by
   induction cs with
   | nil => simp [shifted]
@@ -207,7 +209,7 @@ theorem mem_shifted_iff {cs : List (Nat × Option Delta)} (hwf : WF cs) {t : Nat
           | some d0 => simp only [shifted, List.mem_cons]; right; exact this
 
 /-- the reader never observes a delta in the cycle that produced it: a delivery at `τ` stems from a write at `τ - 1` -/
-theorem shape_never_same_cycle (cs : List (Nat × Option Delta)) (hwf : WF cs) {τ : Nat} {d : Delta}
+theorem shape_never_same_cycle (cs : List (Nat × Option δ)) (hwf : WF cs) {τ : Nat} {d : δ}
     (h : (τ, d) ∈ run {} cs) : ∃ t, τ = t + 1 ∧ (t, some d) ∈ cs := by
   rw [shape_feedback_delay cs hwf] at h; exact mem_shifted h
 
@@ -446,8 +448,8 @@ theorem fix_value_lookup (v : Val) (d : Delta) (p : Pos) :
 /-! ## quiescence -/
 
 /-- no writes and nothing due ⇒ no deliveries, and the pair's state does not change -/
-theorem shape_quiescent (cs : List (Nat × Option Delta)) :
-    ∀ s : FB, (∀ c ∈ cs, c.2 = none ∧ s.sched ≠ c.1) → run s cs = [] ∧ finalFB s cs = s := by
+theorem shape_quiescent (cs : List (Nat × Option δ)) :
+    ∀ s : FB δ, (∀ c ∈ cs, c.2 = none ∧ s.sched ≠ c.1) → run s cs = [] ∧ finalFB s cs = s := by
   induction cs with
   | nil => intro s _; exact ⟨rfl, rfl⟩
   | cons c rest ih =>
@@ -461,12 +463,12 @@ theorem shape_quiescent (cs : List (Nat × Option Delta)) :
     simp only [run, finalFB, hc]
     exact ih'
 
-def headTime : List (Nat × Option Delta) → Nat
+def headTime : List (Nat × Option δ) → Nat
   | [] => 0
   | (t, _) :: _ => t
 
-theorem sched_after (pre : List (Nat × Option Delta)) (t : Nat) (w : Option Delta) :
-    ∀ s : FB, WF (pre ++ [(t, w)]) → (s.sched = 0 ∨ s.sched = headTime (pre ++ [(t, w)])) →
+theorem sched_after (pre : List (Nat × Option δ)) (t : Nat) (w : Option δ) :
+    ∀ s : FB δ, WF (pre ++ [(t, w)]) → (s.sched = 0 ∨ s.sched = headTime (pre ++ [(t, w)])) →
       (finalFB s (pre ++ [(t, w)])).sched = if w.isSome then t + 1 else 0 := by
   induction pre with
   | nil =>
@@ -505,18 +507,18 @@ theorem sched_after (pre : List (Nat × Option Delta)) (t : Nat) (w : Option Del
 
 /-- **nothing re-ticks**: after the cycle at `t` the source is scheduled for exactly `t + 1` if the producer
     ticked at `t`, and is idle (`MIN_DT`) otherwise -/
-theorem source_due_iff_written (pre : List (Nat × Option Delta)) (t : Nat) (w : Option Delta)
+theorem source_due_iff_written (pre : List (Nat × Option δ)) (t : Nat) (w : Option δ)
     (hwf : WF (pre ++ [(t, w)])) :
-    (finalFB {} (pre ++ [(t, w)])).sched = if w.isSome then t + 1 else 0 :=
+    (finalFB ({} : FB δ) (pre ++ [(t, w)])).sched = if w.isSome then t + 1 else 0 :=
   sched_after pre t w {} hwf (Or.inl rfl)
 
 /-! ## the un-cleared state -/
 
 /-- a source that clears the captured delta when it emits it (the tidy single-slot specification) -/
-def sourceStepClr (t : Nat) (s : FB) : FB × Option Delta :=
+def sourceStepClr (t : Nat) (s : FB δ) : FB δ × Option δ :=
   if s.sched = t then ({ state := none, sched := 0 }, s.state) else (s, none)
 
-def runClr : FB → List (Nat × Option Delta) → List (Nat × Delta)
+def runClr : FB δ → List (Nat × Option δ) → List (Nat × δ)
   | _, [] => []
   | s, (t, w) :: rest =>
     let r := sourceStepClr t s
@@ -527,8 +529,8 @@ def runClr : FB → List (Nat × Option Delta) → List (Nat × Delta)
 /-- `evaluate_feedback_source` leaves the captured delta in the node state; because only the schedule slot
     decides whether it is emitted, this is unobservable: a clearing source delivers the same stream
     (cycle times are positive: `MIN_ST` and later) -/
-theorem state_not_cleared_harmless (cs : List (Nat × Option Delta)) :
-    ∀ s s' : FB, (∀ c ∈ cs, 0 < c.1) → s.sched = s'.sched →
+theorem state_not_cleared_harmless (cs : List (Nat × Option δ)) :
+    ∀ s s' : FB δ, (∀ c ∈ cs, 0 < c.1) → s.sched = s'.sched →
       (s'.state = s.state ∨ (s'.state = none ∧ s.sched = 0)) → run s cs = runClr s' cs := by
   induction cs with
   | nil => intro s s' _ _ _; rfl
@@ -545,7 +547,7 @@ theorem state_not_cleared_harmless (cs : List (Nat × Option Delta)) :
         · exact h
         · omega
       simp only [hd, hd', if_true, hse]
-      have key : ∀ st : Option Delta, run (sinkStep t w { state := st, sched := 0 }) rest =
+      have key : ∀ st : Option δ, run (sinkStep t w { state := st, sched := 0 }) rest =
           runClr (sinkStep t w { state := none, sched := 0 }) rest := by
         intro st
         apply ih _ _ hpos'
@@ -609,8 +611,8 @@ example : Coherent .set {} (run {} exTss) := by
   rw [h]
   exact ⟨by decide, by decide, trivial⟩
 /-- quiescence hypotheses are satisfiable: idle pair, cycles without writes -/
-example : ∀ c ∈ [((5 : Nat), (none : Option Delta)), (9, none)], c.2 = none ∧ ({} : FB).sched ≠ c.1 := by decide
+example : ∀ c ∈ [((5 : Nat), (none : Option Delta)), (9, none)], c.2 = none ∧ ({} : FB Delta).sched ≠ c.1 := by decide
 /-- the simulation hypotheses of `state_not_cleared_harmless` hold for the idle pair and for a declared initial delta -/
-example : (∀ c ∈ exTsb, 0 < c.1) ∧ ({} : FB).sched = ({} : FB).sched := by decide
+example : (∀ c ∈ exTsb, 0 < c.1) ∧ ({} : FB Delta).sched = ({} : FB Delta).sched := by decide
 
 end HgVerif.FeedbackShape
